@@ -688,7 +688,7 @@ __strfd_card(
 			if (yd >= 0) {
 				res = ui999topstr(
 					buf, bsz, yd,
-					3 - (s.pad == DT_SPPAD_OMIT) << 1U,
+					3 - ((s.pad == DT_SPPAD_OMIT) << 1U),
 					padchar(s));
 			} else if (bsz >= 3U) {
 				buf[res++] = '0';
@@ -702,7 +702,7 @@ __strfd_card(
 			 * month by an earlier specifier */
 			res = ui999topstr(
 				buf, bsz, that.yd.d,
-				3 - (s.pad == DT_SPPAD_OMIT) << 1U, padchar(s));
+				3 - ((s.pad == DT_SPPAD_OMIT) << 1U), padchar(s));
 			break;
 		case DT_LDN:
 			res = snprintfd(snprintf(buf, bsz, "%u", that.ldn), bsz);
@@ -715,7 +715,7 @@ __strfd_card(
 		case DT_DAISY:
 			res = ui999topstr(
 				buf, bsz, dt_dconv(DT_YD, that).yd.d,
-				3 - (s.pad == DT_SPPAD_OMIT) << 1U, padchar(s));
+				3 - ((s.pad == DT_SPPAD_OMIT) << 1U), padchar(s));
 			break;
 		default:
 			break;
